@@ -7,12 +7,13 @@
         a value in [0, 2^63) or to the range error, and to the error exactly above i64::MAX (`-n` never overflows);
      2. the counters of the lexer and parser models never influence their answer: a `None` of [parse_text] is a
         genuine reject of the grammar model, not an exhausted counter;
-     3. the stage-totality theorems of C03, C04, C05 (and C12 when present) chained with their exact hypotheses. *)
+     3. the stage-totality theorems of C03, C04, C05 and C12 (code generation) chained with their exact hypotheses. *)
 From Coq Require Import List ZArith NArith String Ascii Bool.
 From SCC Require Import Base.Sexp Lang.SynUtil Lang.FunSyn Model.Printer Model.Parser Model.NumLit.
 From SCC Require Import Proof.Total Proof.ParseFuel Proof.ParseStable Proof.LexFuel.
 From SCC Require Lang.CoreSyn Lang.AxSyn Model.Backend Model.Focus Model.FocusCheck Sem.FsCheck Model.Shrink
-  Model.Linearize Model.LinCheck.
+  Model.Linearize Model.LinCheck Model.Check Model.Fun2Core Model.Capacity Model.X86 Model.A64 Model.RV
+  Proof.CodegenX86 Proof.CodegenA64 Proof.CodegenRV Proof.WtPreserve.
 Import ListNotations.
 Open Scope string_scope.
 
@@ -46,7 +47,7 @@ Print Assumptions C18_lexer_number_token.
 Theorem C18_parser_literal : forall n k r,
   p_term1 (S n) (TNum k :: r) = (if lit_ok k then Some (FLit (Z.of_N k), r) else None) /\
   p_term1 (S n) (TSym SMinus :: TNum k :: r) = (if lit_ok k then Some (FLit (- Z.of_N k), r) else None).
-Proof. intros. split; [apply p_term1_num_total | apply p_term1_neg_total]. Qed.
+Proof. exact parser_literal_both. Qed.
 Print Assumptions C18_parser_literal.
 
 Theorem C18_lex_then_action : forall c r n rest,
@@ -84,12 +85,10 @@ Print Assumptions C18_parsers_consume.
 
 (* ---- 3. the stages after type checking ------------------------------------------------------------ *)
 (* Focusing (C03_focus_total), shrinking (C04_shrink_total) and the ordered-linear discipline of the linearized
-   program (C05_linearize_exact; [linearize] itself is a function without an error result) with the hypothesis of
-   each theorem.  PARTIAL: that [focus_wf] holds of every fun2core output of a checked program, [wt_fs] of every
-   focus output and [prog_ok] of every shrink output is not proved (fun2core has no totality theorem either); the
-   three predicates are evaluated on the real stage outputs of every generated program by the correspondence
-   steps of C02/C03/C04/C05, and the real stages are observed not to panic by the `robust` step of this property. *)
-Theorem C18_pipeline_total_partial :
+   program (C05_linearize_exact; [linearize] itself is a function without an error result), each with the hypothesis
+   of its own theorem.  Fully proved as stated; what it does not say is that the hypothesis of one stage follows
+   from the previous stage's output - see C18_pipeline_total_partial. *)
+Theorem C18_middle_end_total :
   forall c : CoreSyn.cprog,
     FocusCheck.focus_wf c = true ->
     exists f, Focus.focus_prog c = Backend.Ok f /\
@@ -97,4 +96,57 @@ Theorem C18_pipeline_total_partial :
        exists a, Shrink.shrink_prog f = Shrink.SOk a /\
          (LinCheck.prog_ok a = true -> LinCheck.lin_check_prog (Linearize.linearize a) = true)).
 Proof. exact middle_end_total. Qed.
+Print Assumptions C18_middle_end_total.
+
+(* Code generation (theorems of C12): on a program accepted by the ordered linear discipline every code generator
+   returns Ok within capacity.  [within_capacity_*] = the program has a definition, every context reaching a
+   statement has at most K_backend variables (132 / 139 / 13: the "Out of temporaries"/"Out of registers"
+   assertions), main has at most 5 (x86-64) resp. 7 (AArch64) parameters ("too many arguments for main"), and - RISC-V
+   only - no print_i64/println_i64 occurs (the known finding rv64-print-unimplemented is OUTSIDE this predicate). *)
+Theorem C18_codegen_total_x86 : forall (l : AxSyn.prog) (lc : N),
+  LinCheck.lin_check_prog l = true -> Capacity.within_capacity_x86 l = true ->
+  exists code lc', X86.x86_compile l lc = Backend.Ok (code, Capacity.main_arity l, lc').
+Proof. exact CodegenX86.x86_codegen_total. Qed.
+Print Assumptions C18_codegen_total_x86.
+Theorem C18_codegen_total_a64 : forall (l : AxSyn.prog) (lc : N),
+  LinCheck.lin_check_prog l = true -> Capacity.within_capacity_a64 l = true ->
+  exists code lc', A64.a64_compile l lc = Backend.Ok (code, Capacity.main_arity l, lc').
+Proof. exact CodegenA64.a64_codegen_total. Qed.
+Print Assumptions C18_codegen_total_a64.
+Theorem C18_codegen_total_rv : forall (l : AxSyn.prog) (lc : N),
+  LinCheck.lin_check_prog l = true -> Capacity.within_capacity_rv l = true ->
+  exists code lc', RV.rv_compile l lc = Backend.Ok (code, Capacity.main_arity l, lc').
+Proof. exact CodegenRV.rv_codegen_total. Qed.
+Print Assumptions C18_codegen_total_rv.
+
+(* "code generation fails only with a capacity error": an Err of a code-generator model on such a program means
+   that the program is outside the capacity predicate *)
+Theorem C18_codegen_error_means_capacity : forall (l : AxSyn.prog) (lc : N) msg,
+  LinCheck.lin_check_prog l = true ->
+  (X86.x86_compile l lc = Backend.Err msg -> Capacity.within_capacity_x86 l = false) /\
+  (A64.a64_compile l lc = Backend.Err msg -> Capacity.within_capacity_a64 l = false) /\
+  (RV.rv_compile l lc = Backend.Err msg -> Capacity.within_capacity_rv l = false).
+Proof. exact codegen_error_means_capacity. Qed.
+Print Assumptions C18_codegen_error_means_capacity.
+
+(* THE COMPOSITION (theorem of C12 under its C18 name, hypotheses verbatim): for every checked program whose
+   binders are distinct ([barendregt]: the guard of the known fun2core capture defect), every later stage model
+   succeeds and code generation succeeds within capacity - PARTIAL: the three typing-preservation links
+     H_fun2core_wt  (check p = COk -> compile_prog p = Ok c, wt_core c, pre_check c),
+     H_focus_wt     (typing half of focusing),   H_shrink_wt (typing half of shrinking)
+   are hypotheses, not theorems; they are evaluated on the real stage outputs of every generated program by the
+   correspondence steps of C12, and the real stages are observed not to panic by the `robust` step of this property. *)
+Theorem C18_pipeline_total_partial :
+  WtPreserve.H_fun2core_wt -> WtPreserve.H_focus_wt -> WtPreserve.H_shrink_wt ->
+  forall src p, Check.check src = Check.COk p -> Fun2Core.barendregt p = true ->
+  exists c f a,
+    Fun2Core.compile_prog p = Fun2Core.Ok c /\
+    Focus.focus_prog c = Backend.Ok f /\
+    Shrink.shrink_prog f = Shrink.SOk a /\
+    let l := Linearize.linearize a in
+    LinCheck.lin_check_prog l = true /\
+    (forall lc, Capacity.within_capacity_x86 l = true -> exists code lc', X86.x86_compile l lc = Backend.Ok (code, Capacity.main_arity l, lc')) /\
+    (forall lc, Capacity.within_capacity_a64 l = true -> exists code lc', A64.a64_compile l lc = Backend.Ok (code, Capacity.main_arity l, lc')) /\
+    (forall lc, Capacity.within_capacity_rv l = true -> exists code lc', RV.rv_compile l lc = Backend.Ok (code, Capacity.main_arity l, lc')).
+Proof. exact pipeline_total_partial_lemma. Qed.
 Print Assumptions C18_pipeline_total_partial.
